@@ -104,8 +104,9 @@ func classKind(fname string) (isProj bool, ok bool) {
 // --- workloads ---------------------------------------------------------------------
 
 type pkgSrc struct {
-	name  string
-	files map[string]string
+	name     string
+	files    map[string]string
+	autoMain bool // compile with NoAutoGenMain off
 }
 
 var corpusDirs = []string{"cl/_testspx/basic", "cl/_testspx/init", "cl/_testspx/multiworks", "cl/_testspx/newobj", "cl/_testspx/nogame", "cl/_testspx/singlework"}
@@ -327,28 +328,32 @@ func genClassProject(plan *simrt.Source) *pkgSrc {
 // frameworks and their generated classes come out must not depend on how the
 // files were listed.
 func genMultiFramework(plan *simrt.Source) *pkgSrc {
-	p := &pkgSrc{name: "generated-multi-framework", files: map[string]string{}}
+	p := &pkgSrc{name: "generated-multi-framework", files: map[string]string{}, autoMain: plan.Chance(500)}
 	type fw struct{ work, proj, body, projBody string }
 	fws := []fw{
 		{".tspx", "Game.tgmx", "func onInit() {\n\tprintln \"%s\"\n}\n", "initGameApp\n"},
 		{".t2spx", "Main.t2gmx", "println \"%s\"\n", "println \"main\"\n"},
 		{".t4spx", "Start.t4gmx", "func onInit() {\n\tprintln \"%s\"\n}\n", "println \"start\"\n"},
+		{"_spx.gox", "main_spx.gox", "println \"%s\"\n", "println \"hi\"\n"},
 	}
 	names := []string{"Kai", "Abc", "Zed", "Moe", "Bob", "Ann", "Eve"}
 	k := plan.Draw(len(fws)) // the framework left out when only two are used
-	three := plan.Chance(300)
+	three := plan.Chance(600)
 	ni := plan.Draw(len(names))
 	for i, f := range fws {
 		if !three && i == k {
 			continue
 		}
-		for j, n := 0, 1+plan.Draw(2); j < n; j++ {
+		for j, n := 0, plan.Draw(3); j < n; j++ {
 			nm := names[ni%len(names)]
 			ni++
 			p.files[nm+f.work] = fmt.Sprintf(f.body, nm)
 		}
-		if plan.Chance(250) {
+		switch plan.Draw(4) {
+		case 0: // its project file, with statements: this project has the main function
 			p.files[f.proj] = f.projBody
+		case 1: // its project file, declarations only
+			p.files[f.proj] = fmt.Sprintf("func on%d() {\n}\n", i)
 		}
 	}
 	return p
@@ -440,7 +445,7 @@ func compile(p *pkgSrc, listing []string, e *env0) (res result) {
 	if pkg == nil {
 		pkg = pkgs[names[0]]
 	}
-	conf := &cl.Config{Fset: e.fset, Importer: e.imp, LookupClass: lookupClass, NoAutoGenMain: true, RelativeBase: "/pkg"}
+	conf := &cl.Config{Fset: e.fset, Importer: e.imp, LookupClass: lookupClass, NoAutoGenMain: !p.autoMain, RelativeBase: "/pkg"}
 	out, err := cl.NewPackage("", pkg, conf)
 	if err != nil {
 		if l, ok := err.(errors.List); ok {
